@@ -2,7 +2,7 @@
    Statements only; every proof is [exact lemma].  Model: Store/Model.v (mechanism, with the repairs fixes/F1, fixes/F2),
    specification: Store/Spec.v ([flat], [range_query]); interleavings: Store/Conc.v. *)
 From NG Require Import Common.Tactics Store.Bytes Store.Model Store.Spec Store.MapLemmas Store.MergeProof
-  Store.Refine Store.GcProof Store.Model2 Store.SplitProof Store.Conc Store.ConcFine Store.ConcBound Store.Conc2 Store.Legacy.
+  Store.Refine Store.GcProof Store.Model2 Store.SplitProof Store.Conc Store.ConcFine Store.ConcBound Store.Conc2 Store.PersistFail Store.Legacy.
 Open Scope N_scope.
 
 (* ---- point reads ---- *)
@@ -289,6 +289,43 @@ Theorem C09_two_layer_reader_depth : forall c0 pre r mid1 mid2,
 Proof. exact two_layer_reader_depth. Qed.
 Print Assumptions C09_two_layer_reader_depth.
 
+(* ---- a flush that FAILS: the error branch of MemCachedStore.persist (Store/PersistFail.v) ----
+   the lower PutChangeSet returns an error having written nothing; the un-flushed batch goes back UNDER what the cache
+   received while the flush was blocked (newer values and newer tombstones win): the one map is unchanged *)
+Theorem C09_persist_fail_flat : forall c, cwf c -> cflat (persist_fail c) = cflat c.
+Proof. exact persist_fail_flat. Qed.
+Print Assumptions C09_persist_fail_flat.
+
+(* for EVERY set of writes interleaved between the swap and the failure *)
+Theorem C09_failed_flush_changes_no_answer : forall c ws, cwf c -> ctemp c = None ->
+  Forall (fun b => sorted false b /\ keys_ok b) ws ->
+  let c' := persist_fail (crun (cstep c ASwap) (map AWrite ws)) in
+  cflat c' = cflat (crun c (map AWrite ws)) /\ ctemp c' = None.
+Proof. exact failed_flush_changes_no_answer. Qed.
+Print Assumptions C09_failed_flush_changes_no_answer.
+
+(* with any number of shared layers above: no step other than a write — the failing flush included — changes the one map,
+   and Get / Seek (any depth) through the top answer like it before, during and after the failed flush *)
+Theorem C09_fail_step_flat : forall s a, fwf s ->
+  match a with FW _ | FWTop _ _ => True | _ => f_flat (fstep s a) = f_flat s end.
+Proof. exact fail_step_flat. Qed.
+Print Assumptions C09_fail_step_flat.
+
+Theorem C09_fail_seek_refines : forall s r, fwf s -> range_ok r ->
+  f_seek s r = rq r (flat_depth_layers (rdepth r) (f_layers s) (cx (fsub s))).
+Proof. exact f_seek_refines. Qed.
+Print Assumptions C09_fail_seek_refines.
+
+Theorem C09_fail_get_refines : forall s k, fwf s -> f_get s k = lookup k (f_flat s).
+Proof. exact f_get_refines. Qed.
+Print Assumptions C09_fail_get_refines.
+
+(* the merge in the other direction (the stale batch over the newer writes) does not have the property *)
+Definition C09_persist_fail_wrong_statement : Prop := persist_fail_wrong_statement.
+Theorem C09_persist_fail_wrong_direction_refuted : ~ C09_persist_fail_wrong_statement.
+Proof. exact persist_fail_wrong_refuted. Qed.
+Print Assumptions C09_persist_fail_wrong_direction_refuted.
+
 (* ---- the reader at a finer grain: its code before s.rlock() is a step of its own (Store/ConcFine.v) ---- *)
 (* the code as written reads nothing of the store before the lock (maps chosen and s.ps captured inside the region):
    for EVERY fine schedule the system is the coarse one ... *)
@@ -410,4 +447,21 @@ Proof.
   - repeat constructor.
   - repeat constructor.
   - vm_compute. reflexivity.
+Qed.
+
+(* a failing flush with writes of every overlap pattern while it is blocked, two layers above *)
+Example C09_ex_failed_flush :
+  let s0 := {| ups := [[]; []]; fsub := {| cbk := BBolt; cm := []; ctemp := None; cx := []; rsnap := None; rans := None |} |} in
+  let acts := [FW [([112; 1], Some [1]); ([112; 2], Some [2])]; FSwap; FLw; FUn;
+               FW [([112; 1], Some [3]); ([112; 2], None); ([112; 3], Some [4])]; FSwap;
+               FW [([112; 1], None); ([112; 2], Some [5])]; FWTop 0 [([112; 3], None)]; FFail] in
+  let s := frun_ s0 acts in
+  fwf s /\ ctemp (fsub s) = None /\ cx (fsub s) = [([112; 1], [1]); ([112; 2], [2])] /\
+  f_flat s = [([112; 2], [5])] /\
+  f_seek s {| rprefix := [112]; rstart := []; rback := true; rdepth := 0 |} = [([112; 2], [5])] /\
+  f_get s [112; 1] = None.
+Proof.
+  cbv zeta. split.
+  - apply frun_wf; [split; simpl; repeat constructor|repeat constructor; simpl; auto; repeat constructor; lia].
+  - vm_compute. repeat split.
 Qed.
